@@ -253,7 +253,10 @@ func H_C14_LeaseSet2() {
 	}
 	var off *offline_signature.OfflineSignature
 	if nd.Bool() {
-		o, oerr := offline_signature.NewOfflineSignature(nd.Uint32(), 7, nd.Bytes(32), nd.Bytes(64), 7)
+		tts := []int{7, 0, 2}
+		tt := tts[nd.IntRange(0, len(tts)-1)]
+		tp, _ := sigLens(tt)
+		o, oerr := offline_signature.NewOfflineSignature(nd.Uint32(), uint16(tt), nd.Bytes(tp), nd.Bytes(64), 7)
 		nd.Assume(oerr == nil)
 		off = &o
 	}
@@ -291,24 +294,38 @@ func H_C14_LeaseSet2() {
 func H_C14_EncryptedLeaseSet() {
 	priv, pub := nd.Ed25519Key()
 	dk := nd.IntRange(-1, 1)
+	sts := []int{11, 7, 8, 1, 0}
+	st := sts[nd.IntRange(0, len(sts)-1)]
+	kp, _ := sigLens(st)
 	key := pub
+	if kp != 32 {
+		key = nd.Bytes(kp) // other key types: the constructor signs with the Ed25519 key it is given
+	}
 	if dk == -1 {
-		key = pub[:31]
+		key = key[:len(key)-1]
 	} else if dk == 1 {
-		key = append(append([]byte{}, pub...), 0)
+		key = append(append([]byte{}, key...), 0)
 	}
 	flags := nd.Uint16()
 	exp := nd.Uint16()
 	il := []int{0, 60, 61, 62}[nd.IntRange(0, 3)]
 	var off *offline_signature.OfflineSignature
 	if nd.Bool() {
-		o, oerr := offline_signature.NewOfflineSignature(nd.Uint32(), 7, nd.Bytes(32), nd.Bytes(64), 11)
+		_, dsl := sigLens(st)
+		o, oerr := offline_signature.NewOfflineSignature(nd.Uint32(), 7, nd.Bytes(32), nd.Bytes(dsl), uint16(st))
 		nd.Assume(oerr == nil)
 		off = &o
 	}
-	e, err := encrypted_leaseset.NewEncryptedLeaseSet(11, key, nd.Uint32(), exp, flags, off, nd.Bytes(il), ed25519.PrivateKey(priv))
+	e, err := encrypted_leaseset.NewEncryptedLeaseSet(uint16(st), key, nd.Uint32(), exp, flags, off, nd.Bytes(il), ed25519.PrivateKey(priv))
 	defect := dk != 0 || exp == 0 || flags&0xFFFC != 0 || ((flags&1 != 0) != (off != nil)) || il < 61
-	nd.Assert((err == nil) == !defect, "enc/constructor-accepts-iff-no-documented-defect")
+	if defect {
+		nd.Assert(err != nil, "enc/constructor-rejects-documented-defects")
+	}
+	_, sl := sigLens(st)
+	if !defect && (sl == 64 || off != nil) {
+		// the Ed25519 signature the constructor produces fits the declared type (or a transient Ed25519 key signs)
+		nd.Assert(err == nil, "enc/constructor-accepts-well-formed-arguments")
+	}
 	if err != nil {
 		nd.Cover("rejected")
 		return
@@ -317,6 +334,7 @@ func H_C14_EncryptedLeaseSet() {
 	ser, serr := e.Bytes()
 	cleanRoundTrip("enc", ser, serr, func(b []byte) ([]byte, int, bool) {
 		v, rem, e2 := encrypted_leaseset.ReadEncryptedLeaseSet(b)
+		_ = st
 		if e2 != nil {
 			return nil, 0, false
 		}
